@@ -563,7 +563,9 @@ func segState(di dirInfo, off int64) string {
 }
 
 // checkOpen re-opens one run-id directory of an image in one checksum mode and applies the
-// oracle.  Returns the report for the alteration class.
+// oracle: (1) nothing beyond what the source handed out, (2) one contiguous range held by files,
+// (2b) nothing older than a gap, (3) snapshot offered only if complete, (4) served bytes, (5) no
+// stale segment served.
 func (c *checker) checkOpen(img *image, runId string, di dirInfo, crc bool, rng *rand.Rand) {
 	key := fmt.Sprintf("%s/img%d", img.Case, img.Idx)
 	ch, rep, dir, err := c.openImage(runId, img.Dirs[runId], img.Params.LogSize)
